@@ -247,6 +247,10 @@ def run(chk, only=None):
                             prev = r
                     last_m = int(round(runs[-1][1] * 1000))
                     jobs.append((year, g, age, form, last_m + 1, 400000, prev[0], None))
+            # distances below the first run once more at a child's age: the row before the first run is a field event whose factors
+            # start later than the sprints' (calculate_factor raised TypeError there until 7347373)
+            first_m = int(round(runs[0][1] * 1000))
+            jobs.append((year, g, 8, 'bare', 20, first_m - 1, None, runs[0][0]))
     if quick:
         # quick tier: the 2023 table, every bare-number segment and every third segment of each other spelling
         kj = [j for j in jobs if j[0] == 2023 and j[3] == 'K']
